@@ -30,6 +30,70 @@ MAXCOND = 1e6
 _state = {"run": None, "calls": Counter(), "first": 6, "every": 1, "threads": None}
 
 
+# Documented call signatures (fourth audit): names of the required arguments in positional order, then the optional
+# flags in positional order with the default the *docstring* states.  icontract hands a condition the value of an
+# argument the caller left out from the signature of the decorated function, i.e. from the code under test: a
+# changed default (``linsteps(endpoint=False)``, ``rotation_matrix(axis=2)``, ``tovoigt(strain=True)``) then
+# re-defines the reference together with the result.  The conditions therefore take every flag from what the caller
+# passed (``_ARGS`` / ``_KWARGS``) and, where the caller passed nothing, from this table.
+# (``fun=None`` stands for the documented default relation, the Seth-Hill family ``strain_stretch_1d``.)
+DOC = {
+    "identity": ((), (("A", None), ("dim", None), ("shape", None), ("dtype", None))),
+    "dya": (("A", "B"), (("mode", 2), ("parallel", False))),
+    "inv": (("A",), (("determinant", None), ("full_output", False), ("sym", False), ("out", None))),
+    "cof": (("A",), (("sym", False), ("out", None))),
+    "eig": (("a",), (("eig", np.linalg.eig),)),
+    "eigh": (("a",), (("UPLO", "L"),)),
+    "eigvals": (("a",), (("shear", False), ("eigvals", np.linalg.eigvals))),
+    "eigvalsh": (("A",), (("shear", False),)),
+    "transpose": (("A",), (("mode", 1),)),
+    "cdya_ik": (("A", "B"), (("parallel", False),)),
+    "cdya_il": (("A", "B"), (("parallel", False),)),
+    "cdya": (("A", "B"), (("parallel", False), ("out", None))),
+    "dot": (("A", "B"), (("mode", (2, 2)), ("parallel", False))),
+    "ddot": (("A", "B"), (("mode", (2, 2)), ("parallel", False))),
+    "dddot": (("A", "B"), (("mode", (3, 3)), ("parallel", False))),
+    "tovoigt": (("A",), (("strain", False),)),
+    "reshape": (("A", "shape"), (("trailing_axes", 2),)),
+    "ravel": (("A",), (("trailing_axes", 2),)),
+    "solve_nd": (("A", "b"), (("solve", np.linalg.solve), ("n", 1))),
+    "rotation_matrix": (("alpha_deg",), (("dim", 3), ("axis", 0))),
+    "linsteps": (("points",), (("num", 10), ("endpoint", True), ("axis", None), ("axes", None), ("values", 0.0))),
+    "strain_stretch_1d": (("stretch",), (("k", 0),)),
+    "strain": (("field",), (("C", None), ("fun", None), ("tensor", True), ("asvoigt", False), ("n", 0))),
+}
+
+
+class Flags(dict):
+    """Flags of one call; ``plain``: the caller passed none of the optional arguments (and no further keyword)."""
+    plain = False
+
+
+def _flags(routine, _ARGS, _KWARGS):
+    """The optional arguments of one call: the caller's value where one was passed (by position or by keyword),
+    the documented default otherwise - never the default of the signature under test."""
+    req, opt = DOC[routine]
+    fl = Flags()
+    given = 0
+    for i, (name, default) in enumerate(opt):
+        if name in _KWARGS:
+            fl[name] = _KWARGS[name]
+            given += 1
+        elif len(_ARGS) > len(req) + i:
+            # (more positional arguments than required ones: all required ones were passed by position)
+            fl[name] = _ARGS[len(req) + i]
+            given += 1
+        else:
+            fl[name] = default
+    fl.plain = given == 0 and all(k in req for k in _KWARGS)
+    return fl
+
+
+def _plain(fl, routine):
+    """Unit of a call that relies on every documented default (counted only when its comparison passed)."""
+    return ["%s[defaults]" % routine] if fl.plain else []
+
+
 def eps_of(*arrs):
     e = np.finfo(np.float64).eps
     for a in arrs:
@@ -112,6 +176,14 @@ def _judge(name, unit, result, ref, scale, eps, detail=None, factor=1.0, config=
                 unit=units, config=config or unit, detail=detail,
                 sample={"routine": unit, "result_shape": list(np.shape(result)), "max_abs_error": err,
                         "tolerance": tol})
+
+
+def _units(unit, also, err, tol):
+    """``unit`` plus the variant units ``also`` (given without the "math:" prefix) when the comparison passes;
+    a failed comparison counts for the plain unit only."""
+    if also and np.isfinite(err) and err <= tol:
+        return [unit] + ["math:" + u for u in also]
+    return unit
 
 
 def _unchanged(name, unit, pairs):
@@ -236,8 +308,10 @@ def _cond_ok(A0):
     return c if np.isfinite(c) and c <= MAXCOND else None
 
 
-def post_inv(A, determinant, full_output, sym, result, OLD, _KWARGS):
+def post_inv(A, result, OLD, _ARGS, _KWARGS):
     run = _state["run"]
+    fl = _flags("inv", _ARGS, _KWARGS)
+    determinant, full_output, sym = fl["determinant"], fl["full_output"], fl["sym"]
     if not (_numeric(A) and A.ndim >= 2 and A.shape[:2] in ((1, 1), (2, 2), (3, 3))):
         run.skip("math.inv", "non-numeric or unsupported input")
         return True
@@ -267,7 +341,7 @@ def post_inv(A, determinant, full_output, sym, result, OLD, _KWARGS):
         flag += "+sym"
     res = result[0] if full_output else result
     unit = "inv[%s,%s]" % (_dimtag(A), flag)
-    _judge("inv", unit, res, ref, maxabs(ref), eps_of(A), factor=max(1.0, c), also=_variants("inv", OLD, _KWARGS))
+    _judge("inv", unit, res, ref, maxabs(ref), eps_of(A), factor=max(1.0, c), also=_variants("inv", OLD, _KWARGS) + _plain(fl, "inv"))
     if full_output:
         # second return value: the determinant (the caller's one if supplied, judged against the snapshot taken before the call)
         dref = per_item(np.linalg.det, [A0], [2]) if determinant is None else np.asarray(OLD.det0 if OLD.det0 is not None else determinant)
@@ -280,8 +354,10 @@ def post_inv(A, determinant, full_output, sym, result, OLD, _KWARGS):
     return True
 
 
-def post_cof(A, sym, result, OLD, _KWARGS):
+def post_cof(A, result, OLD, _ARGS, _KWARGS):
     run = _state["run"]
+    fl = _flags("cof", _ARGS, _KWARGS)
+    sym = fl["sym"]
     if not (_numeric(A) and A.ndim >= 2 and A.shape[:2] in ((1, 1), (2, 2), (3, 3))):
         run.skip("math.cof", "non-numeric or unsupported input")
         return True
@@ -302,7 +378,7 @@ def post_cof(A, sym, result, OLD, _KWARGS):
         return out
     ref = per_item(cofactor, [A0], [2])
     _judge("cof", "cof[%s%s]" % (_dimtag(A), ",sym" if sym else ""), result, ref, max(maxabs(A0) ** (A.shape[0] - 1), 1e-300),
-           eps_of(A), factor=10, also=_variants("cof", OLD, _KWARGS))
+           eps_of(A), factor=10, also=_variants("cof", OLD, _KWARGS) + _plain(fl, "cof"))
     _unchanged("cof", "cof", [("A", A, A0)])
     _check_out("cof", "cof", _KWARGS, result)
     return True
@@ -356,7 +432,9 @@ def post_trace(A, result, OLD, _KWARGS):
     return True
 
 
-def post_transpose(A, mode, result, OLD):
+def post_transpose(A, result, OLD, _ARGS, _KWARGS):
+    fl = _flags("transpose", _ARGS, _KWARGS)
+    mode = fl["mode"]
     if not _numeric(A) or not _sampled("transpose", _sig(A, mode=mode)):
         return True
     if mode == 1 and A.ndim >= 2:
@@ -365,7 +443,7 @@ def post_transpose(A, mode, result, OLD):
         ref = per_item(lambda a: a.transpose(2, 3, 0, 1), [OLD.A0], [4])
     else:
         return True
-    _judge("transpose", "transpose[mode=%d]" % mode, result, ref, 0.0, eps_of(A))
+    _judge("transpose", "transpose[mode=%d]" % mode, result, ref, 0.0, eps_of(A), also=_plain(fl, "transpose"))
     _unchanged("transpose", "transpose", [("A", A, OLD.A0)])
     return True
 
@@ -378,7 +456,9 @@ def post_majortranspose(A, result, OLD):
     return True
 
 
-def post_dya(A, B, mode, result, OLD, _KWARGS):
+def post_dya(A, B, result, OLD, _ARGS, _KWARGS):
+    fl = _flags("dya", _ARGS, _KWARGS)
+    mode = fl["mode"]
     if not _numeric(A, B) or not _sampled("dya", _sig(A, B, mode=mode)):
         return True
     if mode == 2:
@@ -388,14 +468,16 @@ def post_dya(A, B, mode, result, OLD, _KWARGS):
     else:
         return True
     _judge("dya", "dya[mode=%d]" % mode, result, ref, maxabs(OLD.A0) * maxabs(OLD.B0), eps_of(A, B),
-           also=_variants("dya", OLD, _KWARGS))
+           also=_variants("dya", OLD, _KWARGS) + _plain(fl, "dya"))
     _unchanged("dya", "dya", [("A", A, OLD.A0), ("B", B, OLD.B0)])
     _check_out("dya", "dya", _KWARGS, result)
     return True
 
 
 def _cd(name, sub):
-    def cond(A, B, parallel, result, OLD, _KWARGS):
+    def cond(A, B, result, OLD, _ARGS, _KWARGS):
+        fl = _flags(name, _ARGS, _KWARGS)
+        parallel = fl["parallel"]
         if not _numeric(A, B) or A.ndim < 2 or B.ndim < 2 or not _sampled(name, _sig(A, B, parallel=parallel)):
             return True
         if name == "cdya":
@@ -404,7 +486,7 @@ def _cd(name, sub):
         else:
             ref = per_item(lambda a, b: np.einsum(sub, a, b), [OLD.A0, OLD.B0], [2, 2])
         _judge(name, "%s[parallel=%s]" % (name, _par(parallel)), result, ref, maxabs(OLD.A0) * maxabs(OLD.B0),
-               eps_of(A, B), also=_variants(name, OLD, _KWARGS) + _chunked(name, parallel, A, B))
+               eps_of(A, B), also=_variants(name, OLD, _KWARGS) + _chunked(name, parallel, A, B) + _plain(fl, name))
         _unchanged(name, name, [("A", A, OLD.A0), ("B", B, OLD.B0)])
         _check_out(name, name, _KWARGS, result)
         return True
@@ -452,7 +534,9 @@ DDDOT = {(3, 3): "ijk,ijk->"}
 
 
 def _contraction(name, table):
-    def cond(A, B, mode, parallel, result, OLD, _KWARGS):
+    def cond(A, B, result, OLD, _ARGS, _KWARGS):
+        fl = _flags(name, _ARGS, _KWARGS)
+        mode, parallel = fl["mode"], fl["parallel"]
         mode_t = tuple(mode) if isinstance(mode, (tuple, list)) else mode
         if mode_t not in table or not _numeric(A, B):
             return True
@@ -466,7 +550,7 @@ def _contraction(name, table):
         ncontr = 3 ** 3
         _judge(name, "%s[mode=%s,parallel=%s]" % (name, mode_t, _par(parallel)), result, ref,
                maxabs(OLD.A0) * maxabs(OLD.B0) * ncontr, eps_of(A, B),
-               also=_variants(name, OLD, _KWARGS, [A, B]) + _chunked(name, parallel, A, B))
+               also=_variants(name, OLD, _KWARGS, [A, B]) + _chunked(name, parallel, A, B) + _plain(fl, name))
         out = _KWARGS.get("out")
         pairs = [(nm, now, old) for nm, now, old in (("A", A, OLD.A0), ("B", B, OLD.B0))
                  if not (isinstance(out, np.ndarray) and isinstance(now, np.ndarray) and np.shares_memory(out, now))]
@@ -493,7 +577,7 @@ def post_cross(a, b, result, OLD):
     return True
 
 
-def _eig_common(name, a, values, vectors, hermitian, variant=""):
+def _eig_common(name, a, values, vectors, hermitian, variant="", also=()):
     """Residual definition: a v = lambda v for every returned pair, complete set."""
     run = _state["run"]
     n = a.shape[0]
@@ -502,7 +586,7 @@ def _eig_common(name, a, values, vectors, hermitian, variant=""):
     res = np.einsum("ij...,ja...->ia...", a0, vectors) - vectors * values[None]
     unit = name + variant
     run.compare("math." + name, "routine=%s clause=eigen-residual" % unit, maxabs(res) / scale, 1e-9,
-                "%s: a v != lambda v" % unit, unit="math:" + unit, config=unit + "[%dd]" % n)
+                "%s: a v != lambda v" % unit, unit=_units("math:" + unit, also, maxabs(res) / scale, 1e-9), config=unit + "[%dd]" % n)
     nrm = np.sqrt(np.sum(np.abs(vectors) ** 2, axis=0))
     run.compare("math." + name, "routine=%s clause=eigenvector-norm" % unit, maxabs(nrm - 1), 1e-9,
                 "%s: eigenvectors not normalised" % unit, unit="math:" + unit)
@@ -524,7 +608,9 @@ def _eig_common(name, a, values, vectors, hermitian, variant=""):
                         "%s: the returned eigenvalues are not the complete spectrum of every item" % unit, unit="math:" + unit + ":complete")
 
 
-def post_eigh(a, UPLO, result, OLD):
+def post_eigh(a, result, OLD, _ARGS, _KWARGS):
+    fl = _flags("eigh", _ARGS, _KWARGS)
+    UPLO = fl["UPLO"]
     if not _numeric(a) or a.ndim < 2 or a.shape[0] != a.shape[1] or not _sampled("eigh", _sig(a, UPLO=UPLO)):
         return True
     a0 = OLD.a0
@@ -538,18 +624,19 @@ def post_eigh(a, UPLO, result, OLD):
         a0 = half + np.swapaxes(half, 0, 1) + diag
         _eig_common("eigh", a0, result[0], result[1], True, variant="[UPLO=%s,triangular-storage]" % str(UPLO).upper())
     else:
-        _eig_common("eigh", a0, result[0], result[1], True)
+        _eig_common("eigh", a0, result[0], result[1], True, also=_plain(fl, "eigh"))
     a0 = OLD.a0
     _unchanged("eigh", "eigh", [("a", a, a0)])
     return True
 
 
-def post_eig(a, eig, result, OLD):
-    if eig is not np.linalg.eig:
+def post_eig(a, result, OLD, _ARGS, _KWARGS):
+    fl = _flags("eig", _ARGS, _KWARGS)
+    if fl["eig"] is not np.linalg.eig:
         return True
     if not _numeric(a) or a.ndim < 2 or a.shape[0] != a.shape[1] or not _sampled("eig", _sig(a)):
         return True
-    _eig_common("eig", OLD.a0, result[0], result[1], False)
+    _eig_common("eig", OLD.a0, result[0], result[1], False, also=_plain(fl, "eig"))
     _unchanged("eig", "eig", [("a", a, OLD.a0)])
     return True
 
@@ -559,7 +646,9 @@ def _eigvals_ref(a0, shear, herm):
     return per_item(f, [a0], [2])
 
 
-def post_eigvalsh(A, shear, result, OLD):
+def post_eigvalsh(A, result, OLD, _ARGS, _KWARGS):
+    fl = _flags("eigvalsh", _ARGS, _KWARGS)
+    shear = fl["shear"]
     if not _numeric(A) or A.ndim < 2 or A.shape[0] != A.shape[1] or not _sampled("eigvalsh", _sig(A, shear=shear)):
         return True
     A0 = OLD.A0
@@ -575,13 +664,15 @@ def post_eigvalsh(A, shear, result, OLD):
         ref = np.concatenate([w, np.array([w[i] - w[j] for i, j in ij])], axis=0)
     else:
         ref = w
-    _judge("eigvalsh", "eigvalsh[shear=%s]" % bool(shear), result, ref, maxabs(A0), eps_of(A), factor=100)
+    _judge("eigvalsh", "eigvalsh[shear=%s]" % bool(shear), result, ref, maxabs(A0), eps_of(A), factor=100, also=_plain(fl, "eigvalsh"))
     _unchanged("eigvalsh", "eigvalsh", [("A", A, A0)])
     return True
 
 
-def post_eigvals(a, shear, eigvals, result, OLD):
-    if eigvals is not np.linalg.eigvals:
+def post_eigvals(a, result, OLD, _ARGS, _KWARGS):
+    fl = _flags("eigvals", _ARGS, _KWARGS)
+    shear = fl["shear"]
+    if fl["eigvals"] is not np.linalg.eigvals:
         return True
     if shear:
         # eigenvalues (in the solver's order) followed by their pairwise differences (1,0), (2,0), (2,1) resp. (1,0)
@@ -608,14 +699,22 @@ def post_eigvals(a, shear, eigvals, result, OLD):
     got = np.sort_complex(np.moveaxis(np.asarray(result), 0, -1))
     refm = np.sort_complex(np.moveaxis(ref, 0, -1))
     run = _state["run"]
-    run.compare("math.eigvals", "routine=eigvals clause=value", maxabs(got - refm) / max(maxabs(OLD.a0), 1e-300), 1e-8,
-                "eigvals: multiset of eigenvalues differs from numpy.linalg.eigvals", unit="math:eigvals",
+    if np.shape(got) != np.shape(refm):
+        # (e.g. the rows of the shear variant appended to a call that did not ask for them)
+        run.fail("math.eigvals", "routine=eigvals clause=shape", "eigvals: %d values per item of a %dx%d matrix"
+                 % (np.shape(got)[-1] if np.ndim(got) else 1, a.shape[0], a.shape[0]), unit="math:eigvals")
+        return True
+    err = maxabs(got - refm) / max(maxabs(OLD.a0), 1e-300)
+    run.compare("math.eigvals", "routine=eigvals clause=value", err, 1e-8,
+                "eigvals: multiset of eigenvalues differs from numpy.linalg.eigvals", unit=_units("math:eigvals", _plain(fl, "eigvals"), err, 1e-8),
                 config="eigvals")
     _unchanged("eigvals", "eigvals", [("a", a, OLD.a0)])
     return True
 
 
-def post_tovoigt(A, strain, result, OLD):
+def post_tovoigt(A, result, OLD, _ARGS, _KWARGS):
+    fl = _flags("tovoigt", _ARGS, _KWARGS)
+    strain = fl["strain"]
     if not _numeric(A) or A.ndim < 2 or A.shape[:2] not in ((1, 1), (2, 2), (3, 3)):
         return True
     if not _sampled("tovoigt", _sig(A, strain=strain)):
@@ -630,7 +729,7 @@ def post_tovoigt(A, strain, result, OLD):
     # non-symmetric one tells (i, j) from (j, i)
     nonsym = n > 1 and maxabs(OLD.A0 - np.swapaxes(OLD.A0, 0, 1)) > 1e-3 * maxabs(OLD.A0)
     _judge("tovoigt", "tovoigt[%dd,strain=%s]" % (n, bool(strain)), result, ref, maxabs(OLD.A0), eps_of(A),
-           also=["tovoigt[%dd,nonsymmetric]" % n] if nonsym else ())
+           also=(["tovoigt[%dd,nonsymmetric]" % n] if nonsym else []) + _plain(fl, "tovoigt"))
     _unchanged("tovoigt", "tovoigt", [("A", A, OLD.A0)])
     return True
 
@@ -666,11 +765,13 @@ def post_inplane(A, vectors, result, OLD):
     return True
 
 
-def post_identity(A, dim, shape, dtype, result):
+def post_identity(result, _ARGS, _KWARGS):
     """Reference from the documented return value alone: ``(N, M, *ones)`` taken from ``A``, ``(dim, dim, *ones)``
     with a given ``dim``; as many size-one batch axes as ``shape`` (or the batch of ``A``) has; data type: the
     given one, else that of ``A``, else float."""
     run = _state["run"]
+    fl = _flags("identity", _ARGS, _KWARGS)
+    A, dim, shape, dtype = fl["A"], fl["dim"], fl["shape"], fl["dtype"]
     if A is not None:
         if not isinstance(A, np.ndarray) or A.ndim < 2:
             return True
@@ -705,32 +806,38 @@ def post_identity(A, dim, shape, dtype, result):
     return True
 
 
-def post_reshape(A, shape, trailing_axes, result):
+def post_reshape(A, shape, result, _ARGS, _KWARGS):
     run = _state["run"]
+    fl = _flags("reshape", _ARGS, _KWARGS)
+    trailing_axes = fl["trailing_axes"]
     if not isinstance(A, np.ndarray):
         return True
     ref = A.reshape(tuple(np.atleast_1d(shape)) + A.shape[A.ndim - trailing_axes:])
     if result.shape == ref.shape and np.array_equal(result, ref):
-        run.ok("math.reshape", unit="math:reshape", config="reshape")
+        run.ok("math.reshape", unit=["math:reshape"] + ["math:" + u for u in _plain(fl, "reshape")], config="reshape")
     else:
         run.fail("math.reshape", "routine=reshape clause=value", "reshape differs from C-order reshape of leading axes")
     return True
 
 
-def post_ravel(A, trailing_axes, result):
+def post_ravel(A, result, _ARGS, _KWARGS):
     run = _state["run"]
+    fl = _flags("ravel", _ARGS, _KWARGS)
+    trailing_axes = fl["trailing_axes"]
     if not isinstance(A, np.ndarray):
         return True
     lead = A.shape[: A.ndim - trailing_axes]
     ref = A.reshape((int(np.prod(lead)),) + A.shape[A.ndim - trailing_axes:])
     if result.shape == ref.shape and np.array_equal(result, ref):
-        run.ok("math.ravel", unit="math:ravel", config="ravel")
+        run.ok("math.ravel", unit=["math:ravel"] + ["math:" + u for u in _plain(fl, "ravel")], config="ravel")
     else:
         run.fail("math.ravel", "routine=ravel clause=value", "ravel differs from C-order ravel of leading axes")
     return True
 
 
-def post_solve_nd(A, b, solve, n, result, OLD):
+def post_solve_nd(A, b, result, OLD, _ARGS, _KWARGS):
+    fl = _flags("solve_nd", _ARGS, _KWARGS)
+    solve, n = fl["solve"], fl["n"]
     if solve is not np.linalg.solve or not _numeric(A, b) or not _sampled("solve_nd", _sig(A, b, n=n)):
         return True
     run = _state["run"]
@@ -768,14 +875,17 @@ def post_solve_nd(A, b, solve, n, result, OLD):
         if n > 0 and (1 in A0.shape[:la] or 1 in b0.shape[:n]) and max(want[:n]) > 1:
             units.append("math:solve_nd[broadcast tensor axes]")
         units.append("math:solve_nd[batch rank %d]" % min(len(want) - n, 3))
+        units += ["math:" + u for u in _plain(fl, "solve_nd")]
     run.compare("math.solve_nd", "routine=solve_nd[n=%d] clause=residual" % n, maxabs(r) / scale, 1e-9,
                 "solve_nd: A x != b", unit=units if len(units) > 1 else units[0], config="solve_nd[n=%d]" % n)
     _unchanged("solve_nd", "solve_nd", [("A", A, A0), ("b", b, b0)])
     return True
 
 
-def post_rotation_matrix(alpha_deg, dim, axis, result):
+def post_rotation_matrix(alpha_deg, result, _ARGS, _KWARGS):
     run = _state["run"]
+    fl = _flags("rotation_matrix", _ARGS, _KWARGS)
+    dim, axis = fl["dim"], fl["axis"]
     a = np.deg2rad(alpha_deg)
     if dim == 2:
         ref = np.array([[np.cos(a), -np.sin(a)], [np.sin(a), np.cos(a)]])
@@ -786,21 +896,29 @@ def post_rotation_matrix(alpha_deg, dim, axis, result):
         ref = np.eye(3) + np.sin(a) * K + (1 - np.cos(a)) * K @ K
     else:
         return True
+    if np.shape(result) != ref.shape:
+        run.fail("math.rotation_matrix", "routine=rotation_matrix[dim=%d,axis=%s] clause=shape" % (dim, axis),
+                 "rotation_matrix: shape %s, documented (%d, %d)" % (np.shape(result), dim, dim))
+        return True
+    err = maxabs(np.asarray(result) - ref)
+    # (a call that names neither dim nor axis is, as documented, the 3D rotation about the first axis)
     run.compare("math.rotation_matrix", "routine=rotation_matrix[dim=%d,axis=%s] clause=value" % (dim, axis),
-                maxabs(np.asarray(result) - ref), 1e-14,
-                "rotation_matrix: not the right-handed rotation about the named axis",
-                unit="math:rotation_matrix[dim=%d,axis=%s]" % (dim, axis if dim == 3 else "-"),
+                err, 1e-14,
+                "rotation_matrix: not the right-handed rotation about the named (or documented default) axis",
+                unit=_units("math:rotation_matrix[dim=%d,axis=%s]" % (dim, axis if dim == 3 else "-"), _plain(fl, "rotation_matrix"), err, 1e-14),
                 config="rotation_matrix[dim=%d,axis=%s]" % (dim, axis))
     return True
 
 
-def post_strain_stretch_1d(stretch, k, result, OLD):
+def post_strain_stretch_1d(stretch, result, OLD, _ARGS, _KWARGS):
+    fl = _flags("strain_stretch_1d", _ARGS, _KWARGS)
+    k = fl["k"]
     s = np.asarray(stretch, dtype=float)
     if not np.all(np.isfinite(s)) or np.any(s <= 0):
         return True
     ref = np.log(s) if k == 0 else (s ** k - 1) / k
     _judge("strain_stretch_1d", "strain_stretch_1d[k%s0]" % ("=" if k == 0 else "!="), result, ref, max(maxabs(ref), 1.0),
-           eps_of(s), factor=10)
+           eps_of(s), factor=10, also=_plain(fl, "strain_stretch_1d"))
     _unchanged("strain_stretch_1d", "strain_stretch_1d", [("stretch", stretch, OLD.s0)])
     return True
 
@@ -808,12 +926,15 @@ def post_strain_stretch_1d(stretch, k, result, OLD):
 STRAIN_ARGS = ("field", "C", "fun", "tensor", "asvoigt", "n")
 
 
-def post_strain(field, C, fun, tensor, asvoigt, result, OLD, _KWARGS):
+def post_strain(field, result, OLD, _ARGS, _KWARGS):
     import felupe.math as fm
+    fl = _flags("strain", _ARGS, _KWARGS)
+    C, fun, tensor, asvoigt = fl["C"], fl["fun"], fl["tensor"], fl["asvoigt"]
     if C is None or not _numeric(C) or C.ndim < 2 or C.shape[:2] not in ((1, 1), (2, 2), (3, 3)):
         return True
     orig_fun = getattr(fm.strain_stretch_1d, "__wrapped_by_vmon__", None)
-    default = fun is fm.strain_stretch_1d or fun is orig_fun
+    # (fun left out: the documented default relation, the Seth-Hill family with k from the keyword arguments, k = 0 without)
+    default = fun is None or fun is fm.strain_stretch_1d or fun is orig_fun
     if not _sampled("strain", _sig(C, tensor=tensor, asvoigt=asvoigt)):
         return True
     C0 = OLD.C0
@@ -864,7 +985,7 @@ def post_strain(field, C, fun, tensor, asvoigt, result, OLD, _KWARGS):
     if maxabs(ref) < 1e-3:
         also.append("strain[small strains]")
     _judge("strain", "strain[tensor=%s,asvoigt=%s,%s]" % (bool(tensor), bool(asvoigt), tag), result, ref,
-           max(1.0, maxabs(ref)), eps_of(C), factor=1e3, also=also)
+           max(1.0, maxabs(ref)), eps_of(C), factor=1e3, also=also + (["strain[C,defaults]"] if set(_KWARGS) <= {"field", "C"} and len(_ARGS) <= 2 else []))
     # small strains e: two strain measures differ by e^2 only (1e-10 at e = 1e-5), below the bound above; there
     # (stretches ~ 1, perfectly conditioned) the same comparison is made at the round-off level of the
     # eigen-decomposition, C * eps * |C|
@@ -875,8 +996,10 @@ def post_strain(field, C, fun, tensor, asvoigt, result, OLD, _KWARGS):
     return True
 
 
-def post_linsteps(points, num, endpoint, axis, axes, values, result):
+def post_linsteps(points, result, _ARGS, _KWARGS):
     run = _state["run"]
+    fl = _flags("linsteps", _ARGS, _KWARGS)
+    num, endpoint, axis, axes, values = fl["num"], fl["endpoint"], fl["axis"], fl["axes"], fl["values"]
     p = np.array(points, dtype=float).ravel()
     nseg = max(len(p) - 1, 0)
     nums = list(np.array([num]).ravel())
@@ -900,7 +1023,13 @@ def post_linsteps(points, num, endpoint, axis, axes, values, result):
         ref[:, axis] = seq
         ok = res.shape == ref.shape and maxabs(res - ref) <= 1e-14 * max(1.0, maxabs(ref))
     if ok:
-        run.ok("math.linsteps", unit="math:linsteps", config="linsteps[axis=%s]" % (axis is not None))
+        # (variants by what the caller left to the documented defaults: everything / the end point / the other columns)
+        also = _plain(fl, "linsteps")
+        if not ({"endpoint"} & set(_KWARGS)) and len(_ARGS) < 3:
+            also.append("linsteps[endpoint=default]")
+        if axis is not None and ref.shape[1] > 1 and not ({"values"} & set(_KWARGS)) and len(_ARGS) < 6:
+            also.append("linsteps[values=default]")
+        run.ok("math.linsteps", unit=["math:linsteps"] + ["math:" + u for u in also], config="linsteps[axis=%s]" % (axis is not None))
     else:
         run.fail("math.linsteps", "routine=linsteps clause=value", "linsteps differs from concatenated equally spaced segments",
                  {"points": p, "num": nums, "result": res})
